@@ -43,3 +43,11 @@ func LoadReplays(prop string) []map[string]string {
 	}
 	return out
 }
+
+// Tier returns "quick" or "thorough".
+func Tier() string {
+	if os.Getenv("VERIF_TIER") == "thorough" {
+		return "thorough"
+	}
+	return "quick"
+}
